@@ -254,6 +254,15 @@ class DefaultLayout(_BaseLayout[_MaildirT]):
 
     """
 
+    @classmethod
+    def _split(cls, name: str, delimiter: str) -> _Parts:
+        parts = super()._split(name, delimiter)
+        for part in parts:
+            if '.' in part:
+                # would be read back as a hierarchy level of its own
+                raise ValueError(name)
+        return parts
+
     def _get_path(self, parts: _Parts) -> str:
         return os.path.join(self._path, self._get_subdir(parts))
 
